@@ -125,7 +125,9 @@ void prop_gen(Ctx &c) {
 			auto &o = ops[i]; int sel = std::get<0>(o); unsigned peer = std::get<1>(o) == 2 && std::get<2>(o) < 3 ? 0 : 1000 + (unsigned)std::get<1>(o);
 			// every user has its own UIDs (cross-user attempts are C11's subject)
 			auto uid = [&](int k) { return "u" + std::to_string(peer) + "-job" + std::to_string((std::get<2>(o) + k) % 8); };
-			if (sel < 50) { std::string b = "BEGIN:VCALENDAR\nVERSION:2.0\n"; int n = sel < 40 ? 1 : std::get<4>(o); for (int k = 0; k < n; k++) b += ev_text(uid(k), ++ver, std::get<3>(o)); b += "END:VCALENDAR\n"; script += submit_op(peer, b);
+			if (sel < 50) { std::string b = "BEGIN:VCALENDAR\nVERSION:2.0\n"; int n = sel < 40 ? 1 : std::get<4>(o); for (int k = 0; k < n; k++) b += ev_text(uid(k), ++ver, std::get<3>(o));
+				if (sel % 7 == 3) b += "BEGIN:VEVENT\nUID:" + uid(7) + "-nostart\nSUMMARY:echo incomplete\nEND:VEVENT\n";   // the request ends with an instruction that is refused (no DTSTART): what was acknowledged before it still counts
+				b += "END:VCALENDAR\n"; script += submit_op(peer, b);
 				if (many_users_dirty && i % 4 == 0) for (unsigned u = 1003; u < 1003 + 17 + (unsigned)i % 4; u++) script += submit_op(u, "BEGIN:VCALENDAR\nVERSION:2.0\n" + ev_text("u" + std::to_string(u) + "-job" + std::to_string(i % 3), ++ver, 0) + "END:VCALENDAR\n"); }   // more than 16 users with changes since the last checkpoint: the dump-everybody path
 			else if (sel < 70) { script += submit_op(peer, "BEGIN:VCALENDAR\nVERSION:2.0\nMETHOD:CANCEL\n" + ev_text(uid(0), 0, 0) + "END:VCALENDAR\n"); }
 			else if (sel < 88) script += "CHK\n";
